@@ -250,6 +250,9 @@ func runScenario(sc *Scenario, tier string, spec *Spec, part *Part) {
 		if deadline.IsZero() || shardDeadline.Before(deadline) {
 			deadline = shardDeadline
 		}
+		if !fairDeadline.IsZero() && fairDeadline.Before(deadline) {
+			deadline = fairDeadline
+		}
 	}
 	counters := map[string]int{}
 	ex := &vsched.Explorer{P: sc.P, D: sc.D, CacheOn: !sc.NoCache, Opts: sc.Opts, Deadline: deadline}
@@ -508,7 +511,7 @@ func TakeDoublePuts() []string {
 // shardDeadline is the end of the thorough tier's wall-clock allowance of this worker process
 // (zero: none). Scenarios are distributed over the workers round robin, so a few heavy ones can
 // land on one worker; without this cap the tier's wall time is (scenarios per worker) x budget.
-var shardDeadline time.Time
+var shardDeadline, fairDeadline time.Time
 
 func runShard(spec *Spec, tier string, sh *Shard, only string) *Part {
 	part := newPart()
@@ -523,12 +526,25 @@ func runShard(spec *Spec, tier string, sh *Shard, only string) *Part {
 		watchPools()
 	}
 	if spec.Build != nil {
+		var mine []*Scenario
 		for _, sc := range spec.Build(tier) {
 			if only != "" && !strings.Contains(sc.Name, only) {
 				continue
 			}
 			if !sh.Mine() {
 				continue
+			}
+			mine = append(mine, sc)
+		}
+		for i, sc := range mine {
+			// thorough: every scenario of this worker gets at least its fair share of what is left
+			// of the worker's allowance (what one does not use flows to the later ones), so a
+			// few insatiable scenarios cannot keep the others from being started at all
+			fairDeadline = time.Time{}
+			if !shardDeadline.IsZero() {
+				if left := time.Until(shardDeadline); left > 0 {
+					fairDeadline = time.Now().Add(left / time.Duration(len(mine)-i))
+				}
 			}
 			runScenario(sc, tier, spec, part)
 		}
